@@ -146,8 +146,15 @@ def kde_cases(draw, tier):
         train[0] = train[0] + [flat[0] + 2.0]
     train2 = draw(st.lists(seq, min_size=1, max_size=3))
     test = draw(st.lists(seq, min_size=1, max_size=4))
+    bw = draw(st.sampled_from([0.05, 0.3, 1.0, 2.5, 5.0, 0.3, 1.0, None]))
+    if bw is None:
+        # the jackknife bandwidth search needs >= 2 values per sequence and >= 2 distinct values overall
+        train = [s_ if len(s_) >= 2 else s_ + [s_[0] + 1.5] for s_ in train][:3]
+        train = [s_[:6] for s_ in train]
+        if len({v for s_ in train for v in s_}) < 2:
+            train[0] = [train[0][0], train[0][0] + 2.0]
     return {"train": train, "train2": train2, "test": test,
-            "bandwidth": draw(st.sampled_from([0.05, 0.3, 1.0, 2.5, 5.0])),
+            "bandwidth": bw,
             "n_components": draw(st.integers(2, 30)),
             "kernel": draw(st.sampled_from(["gaussian", "gaussian", "tophat", "epanechnikov"])),
             "grid": draw(st.sampled_from(["uniform", "density"])),
@@ -160,7 +167,7 @@ def check_kde(case):
     np = L["np"]
     r = Result()
     site = "KDEVectorizer[%s,%s]" % (case["kernel"], case["grid"])
-    r.label("kernel:" + case["kernel"], "grid:" + case["grid"])
+    r.label("kernel:" + case["kernel"], "grid:" + case["grid"], "bandwidth:%s" % ("jackknife" if case["bandwidth"] is None else "given"))
     arr = lambda seqs: [np.asarray(s, dtype=np.float64) for s in seqs]
     mk = lambda: L["K"](bandwidth=case["bandwidth"], n_components=case["n_components"], kernel=case["kernel"],
                         evaluation_grid_strategy=case["grid"])
